@@ -68,7 +68,10 @@ func c14CustomTargets() []c14Target {
 	return []c14Target{mk(c14Tree{}), mk([]c14Tree{}), mk(map[string]c14Tree{}), mk(&c14Tree{}), mk(struct {
 		A c14Tree `struct:"a"`
 		B int     `struct:"b"`
-	}{}), mk(C13Rec{}), mk([]C13Rec{}), mk(C13Plain{}), mk(map[string]C13Plain{}), mk(C13Prim{}), mk([]C13Prim{}), mk(struct {
+	}{}), mk(C13Rec{}), mk([]C13Rec{}), mk(C13Plain{}), mk(map[string]C13Plain{}), mk(C13Prim{}), mk([]C13Prim{}), mk([]*C13Prim{}), mk(map[string]*C13Prim{}), mk([]*c14Tree{}), mk(map[string]*C13Plain{}), mk(struct {
+		L []*C13Prim `struct:"l"`
+		Z int        `struct:"z"`
+	}{}), mk(struct {
 		A C13Rec  `struct:"a"`
 		B C13Prim `struct:"b"`
 	}{})}
